@@ -111,6 +111,15 @@ static inline void verif_seq_block(u32* flag)
 }
 static inline void verif_seq_spin(void) {}
 
+/* typed heap allocation (ll2c emits it when `operator new(sizeof(T))` is immediately cast to T*) */
+void* verif_rt__Znwm(u64 n);
+extern int verif_live_allocs;
+#ifdef __CPROVER__
+#define VERIF_NEW(T) (verif_live_allocs++, __CPROVER_allocate(sizeof(T), 0))
+#else
+#define VERIF_NEW(T) verif_rt__Znwm(sizeof(T))
+#endif
+
 /* ---- kernel-visible API (same names as in rt/verif.h) ------------------------------------ */
 u32 verif_nondet_u32(void);
 u64 verif_nondet_u64(void);
